@@ -8,10 +8,10 @@ property count.  Direct monitor of the property on the same kind of runs (harnes
 from .. import refine, runs
 
 MODULE = "PyhmsVerif.Props.C05"
-THEOREMS = []
-LEVEL = "exploration"
-LEVEL_TEXT = "Trace refinement against the Lean tree model plus the property's direct monitor on sampled real runs; theorems for this property not yet registered."
-LEVEL_NOTE = "Sampled runs only; model, tracer and monitors trusted."
+THEOREMS = ['C05.C05_metaepoch_count', 'C05.C05_returns_iff_true', 'C05.C05_boundary_only_consult', 'C05.C05_done_is_final', 'C05.C05_no_sprout_after_true', 'C05.C05_winddown']
+LEVEL = 'proof'
+LEVEL_TEXT = 'Theorems over all event sequences of the small-step model of run(): the metaepoch counter is incremented exactly by the loop-head consults that came out false; run returns iff the consult at a boundary is true; at a boundary nothing else can happen; nothing happens after return; no deme is created once the condition was observed true; after that a deme performs at most the first generation of its metaepoch. Tie: trace refinement of DemeTree.run() itself (not a stepping loop) over every shipped GSC kind, with evaluation limits landing inside generations and inside new demes initial populations.'
+LEVEL_NOTE = 'Trusted: Lean kernel + standard axioms; the hand-written tree model (Tree.step) is tied to DemeTree.run by trace refinement on sampled runs (every run is re-executed by the model, dumps and sprout stages diffed); numerical engines (NumPy RNG, cma, scipy), objective values and user-defined stop-condition verdicts are environment; monitors trusted as failing-input search. User-defined global stop conditions are covered only if monotone (a condition that turns false again is rejected by the model and reported).'
 TECHNIQUE = "trace refinement against the Lean tree model (Tree.step re-executes real runs) + direct monitors"
 RULE = "case = one traced run of a random configuration (1-3 levels, engine per level from the full list, every shipped GSC/LSC kind plus user-defined ones, both stock sprout mechanisms and user-composed chains, hibernation on/off, both directions, decimal boxes, optional cutoff/precision/stats wrappers, shared or per-level problems); non-trivial = run with >= 2 demes and >= 2 metaepochs; distinct by configuration hash"
 ASSUMPTIONS = ["objective is deterministic and never returns NaN", "runs are capped at 12 metaepochs by a user-level composite stop condition"]
